@@ -32,9 +32,11 @@ const (
 	OpUnlock
 	OpRLock
 	OpRUnlock
+	OpCondWait
+	OpCondSignal
 )
 
-var kindNames = []string{"start", "load", "store", "cas", "swap", "add", "wgdone", "wgwait", "stream", "fault", "exit", "lock", "unlock", "rlock", "runlock"}
+var kindNames = []string{"start", "load", "store", "cas", "swap", "add", "wgdone", "wgwait", "stream", "fault", "exit", "lock", "unlock", "rlock", "runlock", "condwait", "condsignal"}
 
 func (k OpKind) String() string { return kindNames[k] }
 
@@ -215,6 +217,8 @@ func (s *Sched) enabled(t *Thread) bool {
 		return !m.held && m.readers == 0
 	case OpRLock:
 		return !(*MutexState)(t.obj).held
+	case OpCondWait:
+		return !(*CondState)(t.obj).waiting[t.ID]
 	}
 	return true
 }
@@ -767,4 +771,50 @@ func Point(kind OpKind, obj unsafe.Pointer) {
 	s.point(kind, obj)
 	s.wrote(obj)
 	s.note(Event{Kind: kind, Obj: obj})
+}
+
+// ---- condition variables ----
+
+// CondState: the threads blocked in Wait, in arrival order (Go wakes the earliest waiter first).
+type CondState struct {
+	waiting map[int]bool
+	order   []int
+}
+
+// CondEnlist registers the running thread as a waiter (before it releases the lock, as sync.Cond does).
+func CondEnlist(c *CondState) {
+	s := active
+	if c.waiting == nil {
+		c.waiting = map[int]bool{}
+	}
+	c.waiting[s.cur.ID] = true
+	c.order = append(c.order, s.cur.ID)
+}
+
+// CondBlock parks the running thread until it has been signalled.
+func CondBlock(c *CondState) {
+	s := active
+	s.cur.lastAddr = nil
+	s.point(OpCondWait, unsafe.Pointer(c))
+	s.note(Event{Kind: OpCondWait, Obj: unsafe.Pointer(c)})
+}
+
+// CondWake wakes one (all = false) or every waiter.
+func CondWake(c *CondState, all bool) {
+	s := active
+	s.cur.lastAddr = nil
+	s.point(OpCondSignal, unsafe.Pointer(c))
+	for len(c.order) > 0 {
+		id := c.order[0]
+		c.order = c.order[1:]
+		if c.waiting[id] {
+			delete(c.waiting, id)
+			if !all {
+				break
+			}
+		}
+	}
+	s.wrote(unsafe.Pointer(c))
+	s.setVal(unsafe.Pointer(c), int64(len(c.waiting)))
+	s.note(Event{Kind: OpCondSignal, Obj: unsafe.Pointer(c), Val: int64(len(c.waiting))})
 }
